@@ -190,7 +190,7 @@ let handle_elab rest =
   | Err e -> "err " ^ err_str e
 
 (* ---------------- document-level writer: EMIT <options> <netlist value>  ->  "ok <json>" | "err <class>" | "unsup <why>"
-   (the json: {"doc": document, "rt": verdict of VEmit.rt_check}). Grammar:
+   (the json: {"doc": document, "reread": VElab.elab of it, "rt": verdict of VEmit.rt_check, "writable": VEmit.writable}). Grammar:
      options := (~ | n {name}) write_blackbox(0|1) defparam(0|1)
      nv      := (~|top) ndefs {def}
      def     := name lib prim(0|1) nparam {key val} attrs nports {port} ncables {cable} ninsts {inst} nnets {net} nassigns {assign}
@@ -287,7 +287,9 @@ let handle_emit rest =
   let (defs, _) = take_count p_nvdef r in
   let n = { nv_top = top; nv_defs = defs } in
   match emit o n with
-  | WOk d -> "ok {\"doc\":" ^ jlist (List.map jmodule d) ^ ",\"rt\":" ^ (if rt_check o n then "true" else "false") ^ ",\"writable\":" ^ (if writable o n then "true" else "false") ^ "}"
+  | WOk d ->
+    let back = match elab d with Ok n' -> "{\"ok\":" ^ jnv n' ^ "}" | Err e -> "{\"err\":\"" ^ err_str e ^ "\"}" in
+    "ok {\"doc\":" ^ jlist (List.map jmodule d) ^ ",\"reread\":" ^ back ^ ",\"rt\":" ^ (if rt_check o n then "true" else "false") ^ ",\"writable\":" ^ (if writable o n then "true" else "false") ^ "}"
   | WErr e -> "err " ^ err_str e
   | WUnsup u -> "unsup " ^ wunsup_str u
 
